@@ -3,9 +3,21 @@
 //! contents (deletion files, stable row ids, base paths, config)".
 #![allow(dead_code, unused_macros, unused_imports, clippy::all)]
 use std::sync::Arc;
-pub struct Fragment { pub deletion_file: Option<()>, pub row_id_meta: Option<()> }
+/// shim of lance_table::format::{Fragment, DeletionFile, DeletionFileType, RowIdMeta}: same field names and types for the
+/// scalar fields (so that code reading e.g. `num_deleted_rows` still compiles and is judged against the contract)
+#[derive(Clone, Copy, PartialEq, Eq, Debug)]
+pub enum DeletionFileType { Array, Bitmap }
+#[derive(Clone, Copy, PartialEq, Eq, Debug)]
+pub struct DeletionFile { pub read_version: u64, pub id: u64, pub file_type: DeletionFileType, pub num_deleted_rows: Option<usize>, pub base_id: Option<u32> }
+#[derive(Clone, Copy, PartialEq, Eq, Debug)]
+pub enum RowIdMeta { Inline, External }
+pub struct Fragment { pub id: u64, pub deletion_file: Option<DeletionFile>, pub row_id_meta: Option<RowIdMeta>, pub physical_rows: Option<usize> }
+/// stands for Arc<Vec<Fragment>>: the function only calls .iter() on it.  A fixed array + length instead of a heap Vec
+/// (CBMC models heap writes of large structs byte-wise: 24M variables with a Vec, 1M with this)
+pub struct Frags { pub items: [Fragment; 6], pub n: usize }
+impl Frags { pub fn iter(&self) -> std::slice::Iter<'_, Fragment> { self.items[..self.n].iter() } }
 pub struct Manifest {
-    pub fragments: Arc<Vec<Fragment>>,
+    pub fragments: Frags,
     pub config: MapShim,
     pub base_paths: MapShim,
     pub reader_feature_flags: u64,
@@ -29,19 +41,25 @@ mod proofs {
     /// 16 base paths (reader+writer), 32 transaction file disabled (writer only).  Oracle uses the numbers, not the
     /// constants, so moving a constant is noticed.
     #[kani::proof]
-    #[kani::unwind(5)]
+    #[kani::unwind(8)]
     fn flags_reflect_contents() {
-        let d: [bool; 3] = kani::any(); let r: [bool; 3] = kani::any();
-        let n: usize = kani::any(); kani::assume(n <= 3);
-        let mut frags = Vec::new();
-        for i in 0..3 { if i < n { frags.push(Fragment { deletion_file: if d[i] {Some(())} else {None}, row_id_meta: if r[i] {Some(())} else {None} }); } }
-        let mut m = Manifest { fragments: Arc::new(frags), config: MapShim { n: kani::any() }, base_paths: MapShim { n: kani::any() },
+        let d: [bool; 6] = kani::any(); let r: [bool; 6] = kani::any();
+        let n: usize = kani::any(); kani::assume(n <= 6);
+        let mk = |i: usize| Fragment {
+            id: kani::any(), physical_rows: if kani::any() { Some(kani::any()) } else { None },
+            deletion_file: if d[i] { Some(DeletionFile { read_version: kani::any(), id: kani::any(),
+                file_type: if kani::any() { DeletionFileType::Array } else { DeletionFileType::Bitmap },
+                num_deleted_rows: if kani::any() { Some(kani::any()) } else { None },
+                base_id: if kani::any() { Some(kani::any()) } else { None } }) } else { None },
+            row_id_meta: if r[i] { Some(if kani::any() { RowIdMeta::Inline } else { RowIdMeta::External }) } else { None } };
+        let frags = Frags { items: [mk(0), mk(1), mk(2), mk(3), mk(4), mk(5)], n };
+        let mut m = Manifest { fragments: frags, config: MapShim { n: kani::any() }, base_paths: MapShim { n: kani::any() },
             reader_feature_flags: kani::any(), writer_feature_flags: kani::any() };
         let stable: bool = kani::any(); let dis: bool = kani::any();
         let res = apply_feature_flags(&mut m, stable, dis);
-        let any_del = (0..3).any(|i| i < n && d[i]);
-        let any_rid = (0..3).any(|i| i < n && r[i]);
-        let all_rid = (0..3).all(|i| i >= n || r[i]);
+        let any_del = (0..6).any(|i| i < n && d[i]);
+        let any_rid = (0..6).any(|i| i < n && r[i]);
+        let all_rid = (0..6).all(|i| i >= n || r[i]);
         if (any_rid || stable) && !all_rid {
             assert!(res.is_err(), "a table mixing fragments with and without row ids is accepted");
         } else {
@@ -54,7 +72,20 @@ mod proofs {
             // what is written is always readable / writable by this very implementation
             assert!(can_read_dataset(m.reader_feature_flags) && can_write_dataset(m.writer_feature_flags));
         }
-        kani::cover!(res.is_ok() && n == 3 && any_del && any_rid);
+        kani::cover!(res.is_ok() && n == 6 && any_del && any_rid);
         kani::cover!(res.is_err());
+    }
+
+    /// "Readers refuse any table whose reader flags include a bit they do not know and writers refuse unknown writer
+    /// flags" -- over all 2^64 flag words (loop-free: complete).  Known bits per docs/constants: 1,2,4,8,16,32.
+    /// This is the Kani twin of the Verus `flags` unit: it supplies the concrete counterexample.
+    #[kani::proof]
+    fn unknown_bits_are_refused() {
+        let f: u64 = kani::any();
+        let known: u64 = 1 | 2 | 4 | 8 | 16 | 32;
+        assert!(can_read_dataset(f) == (f & !known == 0), "reader accepts a flag word with an unknown bit (or refuses a known one)");
+        assert!(can_write_dataset(f) == (f & !known == 0), "writer accepts a flag word with an unknown bit (or refuses a known one)");
+        kani::cover!(can_read_dataset(f) && f != 0);
+        kani::cover!(!can_read_dataset(f));
     }
 }
